@@ -311,6 +311,46 @@ def intrinsics():
         I[M + "values"] = lambda ip, n, a: IterV(v for _, v in d(a[0]).items())
         I[M + "iter"] = lambda ip, n, a: to_iter(a[0])
     I[BM.replace("::<K, V, A>::", "::<K, V>::") + "new"] = lambda ip, n, a: MapV()
+
+    def _bounds(rng):
+        """(lo, lo_inclusive, hi, hi_inclusive) sort keys of a RangeBounds value (tuple of Bound, or a std range struct)."""
+        rng = d(rng)
+        lo = hi = None
+        loi = hii = True
+        if isinstance(rng, A.Tuple) and len(rng.elems) == 2:
+            for side, b in enumerate(rng.elems):
+                b = d(b)
+                if not isinstance(b, A.Enum) or b.variant not in ("Included", "Excluded", "Unbounded"):
+                    raise A.Unsupported("range bound %r" % (b,))
+                if b.variant != "Unbounded":
+                    k = sk(b.fields[0])
+                    if side == 0:
+                        lo, loi = k, b.variant == "Included"
+                    else:
+                        hi, hii = k, b.variant == "Included"
+            return lo, loi, hi, hii
+        if isinstance(rng, A.Struct) and rng.adt.startswith("core::ops::range::Range"):
+            if "start" in rng.fields:
+                lo = sk(rng.fields["start"])
+            if "end" in rng.fields:
+                hi, hii = sk(rng.fields["end"]), "Inclusive" in rng.adt
+            return lo, loi, hi, hii
+        raise A.Unsupported("range argument %r" % (rng,))
+
+    def map_range(ip, n, a):
+        lo, loi, hi, hii = _bounds(a[1])
+
+        def inside(k):
+            kk = sk(k)
+            if lo is not None and (kk < lo or (kk == lo and not loi)):
+                return False
+            if hi is not None and (kk > hi or (kk == hi and not hii)):
+                return False
+            return True
+        return IterV(A.Tuple([k, v]) for k, v in d(a[0]).items() if inside(k))
+    I[BM + "range"] = map_range
+    I["std::collections::hash::set::HashSet::<T>::new"] = lambda ip, n, a: SetV()
+    I["std::collections::hash::map::HashMap::<K, V>::new"] = lambda ip, n, a: MapV()
     for S in (BS, "std::collections::hash::set::HashSet::<T, S>::", "std::collections::hash::set::HashSet::<T, S, A>::"):
         I[S + "new"] = lambda ip, n, a: SetV()
         I[S + "contains"] = lambda ip, n, a: sk(a[1]) in d(a[0]).d
